@@ -84,6 +84,13 @@ func stdlibModule(name string) ugo.Importable {
 		return &ugo.BuiltinModule{Attrs: ugostrings.Module}
 	case "time":
 		return &ugo.BuiltinModule{Attrs: ugotime.Module}
+	case "plugins":
+		// synthetic builtin module with nested mutable attributes, empty and non-empty (fresh per module map)
+		return &ugo.BuiltinModule{Attrs: map[string]ugo.Object{
+			"registry": ugo.Map{}, "list": ugo.Array{}, "state": ugo.Map{"n": ugo.Int(0)}, "log": ugo.Array{ugo.Int(0)},
+			"nested": ugo.Map{"inner": ugo.Map{}, "arr": ugo.Array{ugo.Map{}}}, "buf": ugo.Bytes{0, 0},
+			"sync": &ugo.SyncMap{Value: ugo.Map{}}, "version": ugo.Int(1),
+		}}
 	}
 	return nil
 }
